@@ -32,13 +32,13 @@ import (
 )
 
 var (
-	chfRouter *gin.Engine
-	sinkURL   string
-	sinkMu    sync.Mutex
-	sinkGot   []string
+	chfRouter   *gin.Engine
+	sinkURL     string
+	sinkMu      sync.Mutex
+	sinkGot     []string
 	sinkSlow    time.Duration
 	sinkReenter func()
-	chfSupis  = map[string]bool{}
+	chfSupis    = map[string]bool{}
 )
 
 func startSink() {
@@ -546,7 +546,7 @@ func genChf(o genOpts, w *bufio.Writer) {
 		counter = 0
 		// one scenario: 1-3 subscribers, 1-2 rating groups each, 1-2 sessions
 		nsub := 1 + r.intn(2)
-		huge := o.mode == "" && r.chance(14)    // volumes whose price lies between 2^31 and 2^32
+		huge := o.mode == "" && r.chance(14) // volumes whose price lies between 2^31 and 2^32
 		if o.mode == "" && r.chance(8) {
 			fmt.Fprintf(w, "chf slowdb 15\n") // the account store writes slowly in this history
 		}
